@@ -1122,6 +1122,28 @@ fn psbt_case(cfg: &RunCfg, rep: &mut Report, world: &World, i: u64) {
             i.previous_output.vout = v;
         }
     }
+    // one PSBT in five carries every ECDSA signature in its high-S form (s -> n - s): with a high r
+    // such a signature is the longest the encoding allows, 72 bytes of DER plus the hash type
+    if rng.chance(1, 5) {
+        let order = unhex("fffffffffffffffffffffffffffffffebaaedce6af48a03bbfd25e8cd0364141").unwrap();
+        for inp in psbt.inputs.iter_mut() {
+            for sig in inp.partial_sigs.values_mut() {
+                let mut c = sig.signature.serialize_compact();
+                let mut borrow = 0i32;
+                let mut out = [0u8; 32];
+                for j in (0..32).rev() {
+                    let d = order[j] as i32 - c[32 + j] as i32 - borrow;
+                    out[j] = d.rem_euclid(256) as u8;
+                    borrow = if d < 0 { 1 } else { 0 };
+                }
+                c[32..].copy_from_slice(&out);
+                if let Ok(s2) = bitcoin::secp256k1::ecdsa::Signature::from_compact(&c) {
+                    sig.signature = s2;
+                }
+            }
+        }
+        notes.push("high-S".into());
+    }
     // more / fewer PSBT inputs than the transaction has
     match rng.below(12) {
         0 => {
